@@ -1,6 +1,7 @@
 """C17 — stream framing: message yielded only from a complete body; clean end only at a frame boundary; EOF elsewhere is an
 error; prefix precedes body; send state only moves forward."""
 import re
+import argnames
 from api import shorten
 
 EXPLANATION = (
@@ -199,3 +200,8 @@ def run(cx):
         cx.check('C17.G3', ok, f.path, f'call:index_mut#{nbuf - 1}', 'read-buffer-is-the-state-own-buffer', why + ': ' + tt[:120], f.loc(bi),
                  sample={'fn': 'TcpStream::poll_next', 'buffer': tt[:90], 'holds': ok})
     cx.floor('C17.G3', nbuf, 2, 'read buffers handed to poll_read (length prefix, body)')
+
+    # ---------------------------------------------------------------- N1 argument names agree with the parameters they are bound to (engine/argnames.py)
+    argnames.check(cx, 'C17.N1', r'hickory_net::tcp', floor=8)
+    argnames.check_fields(cx, 'C17.N1', r'hickory_net::tcp', floor=7)
+
